@@ -101,16 +101,16 @@ def run(prog, chk):
     ]
     chk.decided += ["components are only resolved into contours by util.decomposeCompositeGlyph; no other decomposing pen / component removal outside reviewed functions (R02.11, shared with C15)"]
     chk.not_decided += ["the cu2qu error bound itself", "point-for-point equality", "maxp counts (fontTools recalc)"]
-    r021(prog, chk)
-    r022(prog, chk)
-    r023(prog, chk)
-    r024(prog, chk)
-    r026(prog, chk)
-    r027(prog, chk)
-    r029(prog, chk)
-    r0210(prog, chk)
+    chk.guard(r021, prog, chk)
+    chk.guard(r022, prog, chk)
+    chk.guard(r023, prog, chk)
+    chk.guard(r024, prog, chk)
+    chk.guard(r026, prog, chk)
+    chk.guard(r027, prog, chk)
+    chk.guard(r029, prog, chk)
+    chk.guard(r0210, prog, chk)
     from .c15 import check_single_decomposer
-    check_single_decomposer(prog, chk, "R02.11")
+    chk.guard(check_single_decomposer, prog, chk, "R02.11")
 
 
 def _append_of(prog, fi, ctor_name):
